@@ -31,31 +31,35 @@ CHECKS = {
     "C04": (MC, "explicit enumeration of configurations, dry run vs real run on a copy",
             "All 72 manifest combinations (each kind absent / updatable / not updatable) x codemod kinds (detector-less, semgrep-detected, Sonar, "
             "dependency-adding) x option sets with at most b non-default options; recursive snapshot (bytes, mode, mtime_ns) before == after "
-            "the dry run and normalised dry report == real report.",
+            "the dry run and normalised dry report == real report; every codemod kind also over 8 source-file shapes (CRLF, CR, mixed, BOM, "
+            "no final newline, form feed, unparseable sibling, second file).",
             "Regex/XML pipeline dry-run guards are covered by C19.",
             "3 C04"),
     "C05": (MC, "explicit enumeration of path-selection configurations against a reference model",
             "A union tree with every path shape (default-excluded directories, non-Python files, file/dir symlinks inside and outside, dangling link), "
             "at two target locations, x all include lists x exclude lists up to the stated length over a 9-pattern alphabet x 3 codemod modes; "
-            "set of changed files == ref_select_paths, nothing outside changes, changeset paths == changed files.",
+            "set of changed files == ref_select_paths, nothing outside changes, changeset paths == changed files; hidden names beside their "
+            "undotted twins and './'-prefixed patterns (two accepted readings).",
             "fnmatch semantics on relative paths; default excludes apply iff no --path-exclude given (weakest reading).",
             "3 C05"),
     "C06": (MC, "exhaustive enumeration of reported-site subsets on multi-site programs, with decoys, against the reference run",
             "For every SAST seed a program with n equally fixable copies of the site (column offsets 0/4/8) is run with ALL 2^n subsets of copies "
             "reported in a generated tool-format file (one file per subset, decoys: foreign rule at a site, foreign file, neighbouring line, "
-            "resolved/closed status, empty result file); copies rewritten == copies reported and change entries carry exactly own-rule findings.",
+            "resolved/closed status, empty result file, unreported path twins of reported files); copies rewritten == copies reported and "
+            "change entries carry exactly own-rule findings.",
             "Finding locations are the upstream authors' result files relocated by exact shifts; copies are told apart by marker statements.",
             "3 C06"),
     "C08": ("exploration", "bounded-exhaustive differential execution of generated closed-program families",
             "For each refactoring codemod a closed-program family (boolean trees over call kinds, operator x operand-kind tables, argument "
             "kinds, edge values) is generated, every member is transformed by the real run() and original and rewritten program are executed; "
             "observation = stdout and exception type.",
-            "Decided only for the generated families; some families of the property (imports, abstractproperty, SQL) are not generated yet.",
+            "Decided only for the generated families (single-codemod runs; multi-codemod runs are C09's).",
             "3 C08"),
     "C13": (MC, "exhaustive enumeration of line-pattern subsets per codemod with measured site lines",
             "For every codemod with single-line sites: n-site file, ALL subsets of site lines excluded / included, relative and globbed spellings, "
             "root and sub-directory, one run per (codemod, mode, spelling) with one file per subset; rewritten sites == permitted sites and change "
-            "line numbers == rewritten lines.",
+            "line numbers == rewritten lines; plus in-process histories: all ordered pairs (triples) of run() calls with different line patterns "
+            "on one path, the last run compared with the same run in a fresh state.",
             "Site lines are measured by a pattern-free reference run; codemods whose construct spans several lines are listed as not usable.",
             "3 C13"),
     "C14": (MC, "explicit enumeration of manifest contents x shapes x dependencies x manifest subsets, judged by independent readers",
@@ -78,30 +82,35 @@ CHECKS = {
     "C19": (MC, "explicit enumeration of texts / XML documents x transformers x finding sets on the real pipeline classes",
             "Regex: all line sequences up to length n over 4 line kinds x EOL shapes x pattern forms x every finding subset x dry-run. XML: documents from a "
             "child alphabet (attributes, namespaces, entities, CDATA, comments, PIs, nested, mixed) x prologs x 6 transformer configurations x finding "
-            "subsets; information-set comparison via expat, change entries, dry-run and diff fidelity.",
+            "subsets, incl. start tags directly followed by CDATA / comment / PI and documents without inter-node whitespace; information-set "
+            "comparison via expat, change entries, dry-run and diff fidelity.",
             "Whitespace-only character data, attribute order/quoting and an added XML declaration are insignificant.",
             "3 C19"),
     "C07": (MC, PS + "history BFS depth 2 (run, re-run) with fixed-point oracle",
             "For every program of the program space: s1 = K(P), s2 = K(s1) with identical options and result files through the real run(); "
-            "s2 == s1 bytewise and the second report has no changeset.",
+            "s2 == s1 bytewise and the second report has no changeset; the same history at project level on the collision project "
+            "(manifests, a setup.py that is manifest and source) for every interacting codemod.",
             "Relative to the seed corpus and context dimensions; candidates are re-executed alone through the CLI twice.",
             "3 C07"),
     "C09": (MC, "history BFS over codemod sequences on collision projects: one invocation vs chain of single invocations",
-            "For every ordered pair of the interacting codemods the real run() is executed as one invocation and as a chain on the evolving tree; "
+            "For every ordered pair of the interacting codemods, and every ordered triple over a smaller set (incl. a codemod that only scans "
+            "the shared file), the real run() is executed as one invocation and as a chain on the evolving tree; "
             "states (trees) and per-codemod results are compared; states are de-duplicated by content hash.",
             "Collision projects built from canonical seeds, a shared collision file and a manifest; new candidates re-executed through the CLI twice.",
             "3 C09"),
     "C10": ("fault_enumeration", "exhaustive fault-point enumeration (fault kind x position x pipeline kind, then pairs) against the fault-free twin run",
             "Every single fault (4 content faults, vanish-before-transform, transformer raising on entry / first / middle / last node) at every "
             "file position for three pipeline kinds, plus fault pairs, executed by the real run() with a second codemod following; other files, "
-            "changesets, failedFiles, unfixedFindings, report validity and exit status are compared with the fault-free run.",
+            "changesets, failedFiles, unfixedFindings, report validity and exit status are compared with the fault-free run; 13 shapes of "
+            "unprocessable dependency manifests (alone, pairs) must survive a dependency-adding run without losing a line.",
             "vanish/raise faults are injected by harness-installed wrappers (no hooks in /repo); permission faults are invisible as root.",
             "3 C10"),
     "C11": (MC, "stateless preemption-bounded DFS over thread interleavings of the real per-file tasks + exhaustive enumeration of seam answers",
             "(a) every interleaving with at most b preemptions of the per-file tasks on the real ThreadPoolExecutor (baton scheduler; function-level "
             "seams and PEP 669 line events in the framework modules), (b) pool size and measured in-flight tasks for every (w, n), (c) all 24 orders "
             "of the registry's entry points + real PYTHONHASHSEED runs, (d) every order of Path.rglob answers, (e) sibling independence over subsets "
-            "of a small project for every codemod; in each dimension exactly one outcome is required.",
+            "of a small project for every codemod, (f) every canonical seed of every codemod under PYTHONHASHSEED 0..3 / 0..7 through the console "
+            "script, (g) 0 / 30 / 700 unrelated sibling files; in each dimension exactly one outcome is required.",
             "Schedules serialise tasks at line/function granularity (GIL semantics); C-level races inside libcst are out of scope.",
             "3 C11"),
     "C12": (MC, "exhaustive enumeration of result-set families and generated tool documents against reference merge / extraction",
@@ -113,13 +122,14 @@ CHECKS = {
     "C15": (MC, "state invariant (schema + structural invariants) on every report of the pair histories and a corner enumeration",
             "A vendored CodeTF schema and the structural invariants of the property are evaluated on the report, tree and log of every state of "
             "the pair-history graph and of a dedicated enumeration of corner configurations (zero codemods / files, failures, dependency "
-            "changes, non-ASCII, SAST tools, dry run, whole default and Sonar sets).",
+            "changes, non-ASCII, SAST tools, dry run, whole default and Sonar sets, injected write / transform faults whose run completes).",
             "Line-number bound computed by folding the reported diffs (covers several codemods and dry runs).",
             "3 C15"),
     "C20": (MC, "explicit enumeration of labelled argument vectors x run-time conditions against a decision table",
             "All ordered vectors of at most b labelled option fragments (valid, info, immediate / deferred errors, conflicts), both directory "
             "positions, crossed with run-time conditions (directory, result files, AI environment, output path: singles and pairs), through the "
-            "real run(); every fragment and condition class also through the console script.",
+            "real run(); every fragment and condition class also through the console script; output targets include a stale file, a symlink, "
+            "a named pipe with a reader and /dev/null.",
             "With several applicable failure conditions any of their statuses is accepted; read-only outputs not enumerable as root.",
             "3 C20"),
     "C17": (
@@ -128,7 +138,7 @@ CHECKS = {
         "Every include/exclude list up to the stated length over a 13-token alphabet, in both eligibility modes, "
         "on the real registry under all 24 entry-point orders and on two synthetic registries, is pushed through the real "
         "match_codemods and compared with a reference selection; a set of end-to-end runs compares the executed "
-        "sequence (log) and the report with the same reference.",
+        "sequence (log) and the report with the same reference, including option values that name nothing.",
         "Reference model = DESIGN.md Appendix E; weakest reading for default-excluded ids under a user exclude list.",
         "3 C17",
     ),
